@@ -21,7 +21,9 @@ excluded: the child would still be inside the parent's session, which the proper
 Oracle: (1) no driver call in C (G) on a connection / session pool created by another process - every
 call is tagged (pid, id(con), creator pid); (2) P's sessions keep working; (3) every read session sees
 exactly the rows committed before it by any process; (4) the first write session of C does not block -
-it runs under SIGALRM, "blocked" = the thread stands at the same frame and line at two alarms 3 s apart.
+it runs under SIGALRM; "blocked" = the thread stands at the same frames at consecutive alarms (3 s apart) while
+waiting for a provider lock that is locked although no other thread exists in the process (nobody can ever
+release it; independent of timing), or stands still for four alarms.
 """
 import os, sys, json, time, signal, select, threading, traceback, sqlite3
 from vf import core
@@ -33,8 +35,8 @@ POOLS = ('sqlite', 'pg', 'base', 'oracle')
 POINTS = ('before-bind', 'idle-after-bind', 'idle-after-session', 'other-thread-read-session',
           'other-thread-write-transaction', 'after-disconnect')
 ALARM_S = 3
-TOKEN_TIMEOUT = 120
-CASE_TIMEOUT = 300
+TOKEN_TIMEOUT = 600          # generous: only bound the damage of a harness bug (a loaded machine is slow, not wrong)
+CASE_TIMEOUT = 1800
 FORK_GRACE = 10
 
 def cases(tier):
@@ -73,8 +75,10 @@ def _stack(frame):
     return out
 
 class Alarm(object):
-    """run a session under SIGALRM; blocked = same innermost frame and line at two consecutive alarms"""
-    def __init__(self): self.last, self.fired = None, 0
+    """run a session under SIGALRM. blocked = the thread stands at the same frames and lines at consecutive
+    alarms AND either `proof()` holds (it waits for a lock that is locked while no other thread exists in
+    the process: nobody can ever release it - independent of timing) or this has been so for 4 alarms"""
+    def __init__(self, proof=None): self.last, self.fired, self.same, self.proof = None, 0, 0, proof
     def __enter__(self):
         self.old = signal.signal(signal.SIGALRM, self.on_alarm)
         signal.alarm(ALARM_S)
@@ -82,14 +86,20 @@ class Alarm(object):
     def on_alarm(self, signum, frame):
         self.fired += 1
         st = _stack(frame)
-        if self.last is not None and st[:3] == self.last[:3]:
-            raise Blocked(json.dumps(st[:12]))
-        if self.fired > 40: raise Blocked(json.dumps(['no progress for too long'] + st[:12]))
+        self.same = self.same + 1 if (self.last is not None and st[:3] == self.last[:3]) else 0
+        if self.same >= 1 and self.proof is not None and self.proof(st): raise Blocked(json.dumps(st[:12]))
+        if self.same >= 3: raise Blocked(json.dumps(st[:12]))
+        if self.fired > 100: raise Blocked(json.dumps(['no progress for too long'] + st[:12]))
         self.last = st
         signal.alarm(ALARM_S)
     def __exit__(self, *a):
         signal.alarm(0)
         signal.signal(signal.SIGALRM, self.old)
+
+def provider_locks(db):
+    prov = db.provider
+    return dict((n, getattr(prov, n).locked()) for n in ('transaction_lock', 'pre_transaction_lock')
+                if hasattr(getattr(prov, n, None), 'locked'))
 
 def bind(db, pool, path):
     if pool == 'sqlite':
@@ -125,14 +135,15 @@ def write_session(db, who, tag, steps, alarm=False):
             db.execute("insert into t (v) values ($tag)")
     try:
         if alarm:
-            with Alarm(): body()
+            def proof(stack):      # waiting for a provider lock that no thread of this process can release
+                return any(':acquire_lock:' in f for f in stack[:4]) and any(provider_locks(db).values()) \
+                       and threading.active_count() == 1
+            with Alarm(proof): body()
         else: body()
         step['ok'] = True
     except Blocked as b:
         step.update(ok=False, blocked=True, stack=json.loads(str(b)))
-        prov = db.provider
-        step['locks'] = dict((n, getattr(prov, n).locked()) for n in ('transaction_lock', 'pre_transaction_lock')
-                             if hasattr(getattr(prov, n, None), 'locked'))
+        step['locks'] = provider_locks(db)
         step['threads_in_process'] = threading.active_count()
     except Exception as e:
         step.update(ok=False, error='%s: %s' % (type(e).__name__, str(e)[:200]), exc=type(e).__name__)
@@ -465,7 +476,8 @@ def run(ctx):
     ctx.guard('distinct outcomes', len(outcomes), 4)
     ctx.assume('a fork from inside an open db_session of the forking thread is excluded (the child would still be inside the parent\'s session)')
     ctx.assume('pg / base / oracle: the driver is a recording fake on a sqlite3 file (vf/props/_c36_fake.py); Pool, PGPool and OraPool run unmodified')
-    ctx.assume('"blocked" = same frame and line at two SIGALRMs %d s apart; other waits use timeouts of %d s' % (ALARM_S, TOKEN_TIMEOUT))
+    ctx.assume('"blocked" = same frames at two SIGALRMs %d s apart while waiting for a locked provider lock in a single-threaded process, '
+               'or no progress for four alarms; other waits use timeouts of %d s' % (ALARM_S, TOKEN_TIMEOUT))
     transitions = steps + 2 * n          # + bind/pre-fork and fork edges
     return dict(states=transitions + 1, transitions=transitions, traces_validated_against_impl=n)
 
